@@ -86,14 +86,24 @@ def run_shard(ctx):
     units = [u for u in lex.unit_table()]
     while not ctx.out_of_time():
         sep = rng.choice(SEP_CONFIGS)
+        exotic = rng.random() < 0.15
+        if exotic:
+            # separators are arbitrary strings for the printer (multi-byte, multi-character); money goes through a literal that
+            # has to be *read* in the convention, so money is left out of these batches
+            sep = rng.choice([(',', '\u00a0'), (',', "'"), ('.', '\u202f'), ('·', ' '), (',', '\u2019'), ('.', "' "), ('٫', '٬'), (',', '')])
         d = rng.randint(0, 9)
         pd = rng.randint(0, 9)
+        if rng.random() < 0.15:
+            d = rng.choice([10, 12, 15, 17, 19, 20, 21, 25, 40])         # decimal_digits is a u8: long fractions are a format setting too
+            pd = rng.choice([10, 15, 19, 20, 22, 30])
         cfg = mon.cfg_with(dec=sep[0], thou=sep[1], digits=d, pdigits=pd, rm=rng.random() < 0.5, round=rng.random() < 0.8,
                            mrm=rng.random() < 0.5, mround=rng.random() < 0.8)
         items = []
         meta = []
         for _ in range(150):
             kind = rng.choice(['number', 'number', 'percent', 'money', 'unit'])
+            if exotic and kind == 'money':
+                kind = 'number'
             if kind == 'number':
                 fam, x = gen_value(rng, d)
                 text = '[NUMBER:%s]' % canon_of_float(x)
@@ -121,6 +131,11 @@ def run_shard(ctx):
             res.cases += 1
             res.count('kind:' + kind)
             res.count('family:' + fam)
+            res.cover('decimal digits setting (number)', str(d))
+            if exotic:
+                res.count('exotic_separator_cases')
+            if kind == 'money':
+                res.cover('currency printed', info['code'] if 'code' in info else str(info.get('symbol')), len(codes))
             res.distinct.add(sep, d, pd, cfg['rm'], cfg['round'], cfg['mrm'], cfg['mround'], kind, x, info and info.get('code', info.get('group')))
             k = mon.kind(slot)
             want_kind = {'number': 'number', 'percent': 'percent', 'money': 'money', 'unit': 'unit'}[kind]
